@@ -51,7 +51,7 @@ func init() {
 var c04Kinds = []string{"create", "firstput", "newversion", "activate", "delver", "del"}
 
 func c04Scenarios(seed uint64, tier string) []c04Scenario {
-	per := 2
+	per := 3
 	if tier == "thorough" {
 		per = 8
 	}
@@ -427,7 +427,7 @@ func runC04(o Opts) {
 		}
 	}
 	// ---- (1) rollback histories
-	n := map[string]int{"quick": 150, "thorough": 10000}[o.Tier]
+	n := map[string]int{"quick": 300, "thorough": 10000}[o.Tier]
 	if o.N > 0 {
 		n = o.N
 	}
@@ -465,7 +465,7 @@ func runC04(o Opts) {
 			if !strings.Contains(rec.Coq, "Fsync 0;") {
 				continue
 			}
-			alt.Coq = strings.Replace(rec.Coq, "Fsync 0;", "", 1)
+			alt.Coq = strings.ReplaceAll(rec.Coq, "Fsync 0;", "")
 		case "fs-kill": // claim the file did not open
 			i := strings.LastIndex(rec.Coq, "] ")
 			if i < 0 {
